@@ -147,6 +147,7 @@ func (f *Func) Invoke(ctx context.Context, arg interface{}) (interface{}, error)
 		waitInterval = f.WaitInterval
 	}
 
+	verifAt("invoke.enter", nil, -1)
 	bctx.mu.Lock()
 	// Look up the batchGroup for the Func shard, if any.
 	bg, existed := bctx.pendingBatchGroups[fs]
@@ -195,6 +196,7 @@ func (f *Func) Invoke(ctx context.Context, arg interface{}) (interface{}, error)
 		delete(bctx.pendingBatchGroups, fs)
 	}
 	bctx.mu.Unlock()
+	verifAt("invoke.joined", bg, index)
 
 	// Run the batchGroup if we created it. Otherwise, wait for the batchGroup to
 	// finish.
@@ -206,6 +208,7 @@ func (f *Func) Invoke(ctx context.Context, arg interface{}) (interface{}, error)
 		case <-timer.C: // Resolve after a timeout to bound latency.
 		case <-bg.maxSizeCh: // Resolve if we hit max batch size.
 		}
+		verifAt("invoke.wake", bg, index)
 
 		// Before we try and resolve, make sure noone will add to the group by
 		// deleting it from the pending groups.
@@ -216,6 +219,7 @@ func (f *Func) Invoke(ctx context.Context, arg interface{}) (interface{}, error)
 			delete(bctx.pendingBatchGroups, fs)
 		}
 		bctx.mu.Unlock()
+		verifAt("invoke.unpublished", bg, index)
 
 		// Check for the context being canceled.
 		if ctx.Err() == nil {
@@ -225,8 +229,10 @@ func (f *Func) Invoke(ctx context.Context, arg interface{}) (interface{}, error)
 		}
 		// Make the result available.
 		close(bg.doneCh)
+		verifAt("invoke.ran", bg, index)
 
 	} else {
+		verifAt("invoke.wait", bg, index)
 		concurrencylimiter.TemporarilyRelease(ctx, func() {
 			// Wait for the result.
 			<-bg.doneCh
@@ -234,6 +240,7 @@ func (f *Func) Invoke(ctx context.Context, arg interface{}) (interface{}, error)
 	}
 
 	// Return the local result.
+	verifAt("invoke.return", bg, index)
 	if bg.err != nil {
 		return nil, bg.err
 	}
